@@ -138,6 +138,7 @@ def main():
                 (kn.add(k) if k else pr.append('in-place normalize() = %r is not the rendering of %r' % (once, norm(is_abs(p), segs(p)))))
             if ovalid != '1' or is_abs(once) != is_abs(p): pr.append('normalize() result invalid or absoluteness changed: %r' % once)
             if twice != once: pr.append('in-place normalize() is not idempotent: %r -> %r' % (once, twice))
+            if len(f) > 7 and f[7] != '1': pr.append('normalized_segments() read from the back (rev(), or alternating next/next_back) does not give the same sequence %r' % got_ns)
             classes.add((op, is_abs(p), min(len(segs(p)), 9), b'..' in segs(p), b'' in segs(p)[:-1], any(b':' in s for s in segs(p)), len(p) > 512))
         elif op == 'handle':
             secs = io.split('\t|\t')
